@@ -85,13 +85,18 @@ func (a api) String() string {
 // in one of several equivalent ways chosen by variant; decoy is a path used where a mask must be ignored.
 func splitW(W mask, variant int, decoy string) (resW, moreW mask, all bool, how string) {
 	if W.isNil {
-		switch variant % 3 {
+		switch variant % 5 {
 		case 0:
 			return nilMask(), nilMask(), false, "W=nil"
 		case 1:
 			return pathsMask(decoy), nilMask(), true, "resource W=[decoy]+WithAllFieldsWritable"
-		default:
+		case 2:
 			return nilMask(), pathsMask(decoy), false, "resource W=nil+WithMoreWritableFields(decoy)"
+		case 3:
+			// the override and extra writable paths on the same call: the override wins
+			return pathsMask(decoy), pathsMask(decoy), true, "resource W=[decoy]+WithMoreWritableFields(decoy)+WithAllFieldsWritable"
+		default:
+			return pathsMask(), pathsMask(decoy), true, "resource W=[] (empty)+WithMoreWritableFields(decoy)+WithAllFieldsWritable"
 		}
 	}
 	n := len(W.paths)
@@ -143,7 +148,12 @@ func driveResource(t tuple, a api, variant int, decoy string) (o outcome, resW, 
 		}
 	}
 	if all {
-		wopts = append(wopts, resource.WithAllFieldsWritable())
+		if (variant/5)%2 == 0 {
+			wopts = append(wopts, resource.WithAllFieldsWritable())
+		} else {
+			wopts = append([]resource.WriteOption{resource.WithAllFieldsWritable()}, wopts...)
+			o.how += "; override given first"
+		}
 	}
 	if t.reset != nil {
 		if variant%2 == 0 {
